@@ -258,14 +258,73 @@ FromRows(f, env) ==
     [] f.k = "values" -> f.rows
     [] f.k = "dual" -> << <<>> >>         \* SELECT without FROM: one empty row
 
+KeyT(orow, ord, env) == [i \in DOMAIN ord |-> Rank(EvalE(ord[i].e, orow, env), ord[i])]
+
+\* --------------------------------------------------------------- windows ----
+\* w = [f, a (argument expr), k (NTILE buckets / LAG-LEAD offset / NTH index), dflt (LAG/LEAD default expr),
+\*      part (exprs), ord (sort items), frame = [mode : "default" | "rows" | "range", lo, hi]]
+\* bounds: [t |-> "up" | "p" | "cr" | "f" | "uf", n]   (UNBOUNDED PRECEDING, n PRECEDING, CURRENT ROW, n FOLLOWING,
+\* UNBOUNDED FOLLOWING); RANGE supports up / cr / uf only (peers by the ORDER BY keys).
+\* Order-sensitive functions (ROW_NUMBER, NTILE, LAG/LEAD, FIRST/LAST/NTH_VALUE, ROWS frames) are only generated with a
+\* total order inside each partition, so their value is determined; ties are broken by input position here.
+WinVals(w, rows, env) ==
+  LET n == Len(rows)
+      pk(i) == [j \in DOMAIN w.part |-> EvalE(w.part[j], rows[i], env)]
+      ok(i) == KeyT(rows[i], w.ord, env)
+      same(i, j) == pk(i) = pk(j)
+      before(j, i) == same(i, j) /\ (LexLt(ok(j), ok(i)) \/ (ok(j) = ok(i) /\ j < i))
+      pos(i) == 1 + Cardinality({j \in 1..n : before(j, i)})
+      psize(i) == Cardinality({j \in 1..n : same(i, j)})
+      rowAt(i, p) == CHOOSE j \in 1..n : same(i, j) /\ pos(j) = p
+      nBefore(i) == Cardinality({j \in 1..n : same(i, j) /\ LexLt(ok(j), ok(i))})
+      nUpTo(i) == Cardinality({j \in 1..n : same(i, j) /\ ~LexLt(ok(i), ok(j))})
+      dense(i) == 1 + Cardinality({ok(j) : j \in {x \in 1..n : same(i, x) /\ LexLt(ok(x), ok(i))}})
+      fmode == IF w.frame.mode = "default" THEN (IF w.ord = <<>> THEN "all" ELSE "range") ELSE w.frame.mode
+      blo == IF w.frame.mode = "default" THEN [t |-> "up", n |-> 0] ELSE w.frame.lo
+      bhi == IF w.frame.mode = "default" THEN [t |-> "cr", n |-> 0] ELSE w.frame.hi
+      rowsLo(i) == CASE blo.t = "up" -> 1 [] blo.t = "p" -> pos(i) - blo.n [] blo.t = "cr" -> pos(i)
+                     [] blo.t = "f" -> pos(i) + blo.n [] OTHER -> psize(i) + 1
+      rowsHi(i) == CASE bhi.t = "uf" -> psize(i) [] bhi.t = "f" -> pos(i) + bhi.n [] bhi.t = "cr" -> pos(i)
+                     [] bhi.t = "p" -> pos(i) - bhi.n [] OTHER -> 0
+      rangeLo(i) == IF blo.t = "up" THEN 1 ELSE IF blo.t = "cr" THEN nBefore(i) + 1 ELSE psize(i) + 1
+      rangeHi(i) == IF bhi.t = "uf" THEN psize(i) ELSE IF bhi.t = "cr" THEN nUpTo(i) ELSE 0
+      lo(i) == Max2(1, IF fmode = "all" THEN 1 ELSE IF fmode = "rows" THEN rowsLo(i) ELSE rangeLo(i))
+      hi(i) == Min2(psize(i), IF fmode = "all" THEN psize(i) ELSE IF fmode = "rows" THEN rowsHi(i) ELSE rangeHi(i))
+      frameRows(i) == IF hi(i) < lo(i) THEN <<>> ELSE [p \in 1..(hi(i) - lo(i) + 1) |-> rows[rowAt(i, lo(i) + p - 1)]]
+      ntile(i) == LET k == w.k  sz == psize(i)  q == sz \div k  r == sz % k  p == pos(i)
+                  IN IF q = 0 THEN p
+                     ELSE IF p <= r * (q + 1) THEN ((p - 1) \div (q + 1)) + 1
+                     ELSE r + ((p - r * (q + 1) - 1) \div q) + 1
+      shifted(i, d) == LET p == pos(i) + d IN
+                       IF p >= 1 /\ p <= psize(i) THEN EvalE(w.a, rows[rowAt(i, p)], env) ELSE EvalE(w.dflt, rows[i], env)
+      val(i) == CASE w.f = "row_number" -> pos(i)
+                  [] w.f = "rank" -> 1 + nBefore(i)
+                  [] w.f = "dense_rank" -> dense(i)
+                  [] w.f = "ntile" -> ntile(i)
+                  [] w.f = "percent_rank" -> IF psize(i) = 1 THEN 0 ELSE (nBefore(i) * AVGSCALE) \div (psize(i) - 1)
+                  [] w.f = "cume_dist" -> (nUpTo(i) * AVGSCALE) \div psize(i)
+                  [] w.f = "lag" -> shifted(i, 0 - w.k)
+                  [] w.f = "lead" -> shifted(i, w.k)
+                  [] w.f = "first_value" -> LET fr == frameRows(i) IN IF fr = <<>> THEN NULL ELSE EvalE(w.a, fr[1], env)
+                  [] w.f = "last_value" -> LET fr == frameRows(i) IN IF fr = <<>> THEN NULL ELSE EvalE(w.a, fr[Len(fr)], env)
+                  [] w.f = "nth_value" -> LET fr == frameRows(i) IN IF Len(fr) < w.k THEN NULL ELSE EvalE(w.a, fr[w.k], env)
+                  [] OTHER -> AggVal([f |-> w.f, a |-> w.a, distinct |-> 0], frameRows(i), env)
+  IN [i \in 1..n |-> val(i)]
+
+\* rows extended with one column per window function (appended in order)
+WithWindows(wins, rows, env) ==
+  LET cols == [j \in DOMAIN wins |-> WinVals(wins[j], rows, env)]
+  IN [i \in DOMAIN rows |-> rows[i] \o [j \in DOMAIN wins |-> cols[j][i]]]
+
 \* ------------------------------------------------------------- statements ---
 \* Core(q, env): sequence of [o |-> row ORDER BY is evaluated on, r |-> output row]
 \* before ORDER BY / OFFSET / LIMIT.
 SelectCore(q, env) ==
   LET src == FromRows(q.from, env)
       kept == SelectSeq(src, LAMBDA r : EvalE(q.where, r, env) = 1)
-      pre == IF q.group.on = 0 THEN kept
-             ELSE SelectSeq(GroupRows(q.group, kept, env), LAMBDA r : EvalE(q.group.having, r, env) = 1)
+      pre0 == IF q.group.on = 0 THEN kept
+              ELSE SelectSeq(GroupRows(q.group, kept, env), LAMBDA r : EvalE(q.group.having, r, env) = 1)
+      pre == IF "wins" \in DOMAIN q THEN WithWindows(q.wins, pre0, env) ELSE pre0
       outs == [i \in DOMAIN pre |-> [j \in DOMAIN q.proj |-> EvalE(q.proj[j], pre[i], env)]]
   IN IF q.distinct = 1 THEN LET d == DistinctD(env.dev, outs) IN [i \in DOMAIN d |-> [o |-> d[i], r |-> d[i]]]
      ELSE [i \in DOMAIN pre |-> [o |-> pre[i], r |-> outs[i]]]
@@ -288,8 +347,6 @@ OrdOf(q) == IF q.k = "with" THEN q.body.order ELSE q.order
 LimOf(q) == IF q.k = "with" THEN q.body.limit ELSE q.limit
 OffOf(q) == IF q.k = "with" THEN q.body.offset ELSE q.offset
 EnvOf(q, env) == IF q.k = "with" THEN WithEnv(q, env) ELSE env
-
-KeyT(orow, ord, env) == [i \in DOMAIN ord |-> Rank(EvalE(ord[i].e, orow, env), ord[i])]
 
 Window(n, lim, off) == <<Min2(off + 1, n + 1), IF lim < 0 THEN n ELSE Min2(off + lim, n)>>
 
